@@ -79,7 +79,8 @@ class BaseCtx:
 
     def require(self, cond, sig, msg):
         """cond: python bool or a non-branched symbolic Boolean (see vf.logic). Must hold for every value."""
-        if isinstance(cond, bool):
+        # identity test, not isinstance: under the tracer CrossHair reports a SymbolicBool as an instance of bool
+        if cond is True or cond is False:
             if not cond:
                 self.fail(sig, msg)
             return
